@@ -708,6 +708,7 @@ func (in *setInst) Key() string {
 // identical iteration order (capsule-free members)
 
 func c03Permutations(c *Ctx) {
+	c.Note("repeated_reads", "every set value of the permutation clause is printed 48 more times: Go map iteration order is not under the harness's control, so stability of the iteration order is decided by repeated reads, not by enumeration")
 	for _, alpha := range c03SetAlphabets() {
 		alpha := alpha
 		n := len(alpha.elems)
